@@ -6,6 +6,10 @@ package PVM
 
 import (
 	"bytes"
+	"crypto/sha256"
+	"encoding/binary"
+	"encoding/hex"
+	"fmt"
 	"os"
 	"sort"
 	"testing"
@@ -23,6 +27,8 @@ func vfMaterialize(v any) []byte {
 		m := s.(map[string]any)
 		if vfd.S(m["k"]) == "lit" {
 			out = append(out, vfd.Bytes(m["b"])...)
+		} else if vfd.S(m["k"]) == "zero" {
+			out = append(out, make([]byte, vfd.I(m["n"]))...)
 		} else {
 			sd, n := vfd.I(m["sd"]), vfd.I(m["n"])
 			seg := make([]byte, n)
@@ -135,6 +141,30 @@ func vfProjectPages(mem Memory) []map[string]any {
 	return out
 }
 
+// vfMemDigest: SHA-256 over (page number, access, bytes) of every page in ascending order
+func vfMemDigest(mem Memory) string {
+	keys := make([]uint32, 0, len(mem.Pages))
+	for k := range mem.Pages {
+		keys = append(keys, k)
+	}
+	sort.Slice(keys, func(i, j int) bool { return keys[i] < keys[j] })
+	h := sha256.New()
+	var hdr [8]byte
+	for _, k := range keys {
+		pg := mem.Pages[k]
+		binary.LittleEndian.PutUint32(hdr[:4], k)
+		if pg == nil {
+			binary.LittleEndian.PutUint32(hdr[4:], 0xFFFFFFFF)
+			h.Write(hdr[:])
+			continue
+		}
+		binary.LittleEndian.PutUint32(hdr[4:], uint32(pg.Access))
+		h.Write(hdr[:])
+		h.Write(pg.Value)
+	}
+	return hex.EncodeToString(h.Sum(nil))
+}
+
 func vfHeadTail(c []byte) ([]int, []int) {
 	k := min(8, len(c))
 	return vfd.B(c[:k]), vfd.B(c[len(c)-k:])
@@ -161,9 +191,14 @@ func TestVerifStdInit(t *testing.T) {
 		rec["dec"] = dec
 
 		res := map[string]any{"ok": false, "panic": "", "regs": [][]int{}, "clen": 0, "chead": []int{}, "ctail": []int{},
-			"pages": []map[string]any{}, "hp": []int{}, "hl": []int{}}
+			"pages": []map[string]any{}, "hp": []int{}, "hl": []int{},
+			"bsame": true, "asame": true, "re": false, "reok": false, "d1": "", "d2": "", "repanic": ""}
+		// the caller's buffers, and pristine copies to compare them with afterwards
+		blobBuf, argBuf := append([]byte{}, blob...), append([]byte{}, arg...)
+		var mem Memory
 		if p, msg := vfd.Guard(func() {
-			code, regs, mem, reason := SingleInitializer(StandardCodeFormat(blob), Argument(arg))
+			code, regs, m, reason := SingleInitializer(StandardCodeFormat(blobBuf), Argument(argBuf))
+			mem = m
 			if reason == ExitContinue {
 				res["ok"] = true
 				rr := make([][]int, 13)
@@ -178,6 +213,39 @@ func TestVerifStdInit(t *testing.T) {
 			}
 		}); p {
 			res["panic"] = msg
+		}
+		// Y is a function of (p, a) and the machine owns its memory: let the "guest" store a marker into every
+		// writable page through the Memory API, then look at the caller's buffers again and initialise a second
+		// time from the very same buffers.  Skipped above 8192 pages (the 268 MB heap case) for cost.
+		if res["ok"] == true && res["panic"] == "" && len(mem.Pages) <= 8192 {
+			res["re"] = true
+			if p, msg := vfd.Guard(func() {
+				res["d1"] = vfMemDigest(mem)
+				marker := []byte{0xA5, 0x5A, 0xC3, 0x3C, 0x96, 0x69, 0xF0, 0x0F}
+				for pn, pg := range mem.Pages {
+					if pg != nil && pg.Access == MemoryReadWrite && len(pg.Value) == ZP {
+						mem.Write(uint64(pn)*ZP, marker)
+						mem.Write(uint64(pn)*ZP+ZP-8, marker)
+						mem.Write(uint64(pn)*ZP+2044, marker)
+					}
+				}
+				res["bsame"], res["asame"] = bytes.Equal(blobBuf, blob), bytes.Equal(argBuf, arg)
+				_, regs2, mem2, reason2 := SingleInitializer(StandardCodeFormat(blobBuf), Argument(argBuf))
+				res["reok"] = reason2 == ExitContinue
+				if reason2 == ExitContinue {
+					h := vfMemDigest(mem2)
+					rr := res["regs"].([][]int)
+					for j := range regs2 {
+						if fmt.Sprint(vfd.U64LE(regs2[j])) != fmt.Sprint(rr[j]) {
+							h += "+regs"
+							break
+						}
+					}
+					res["d2"] = h
+				}
+			}); p {
+				res["repanic"] = msg
+			}
 		}
 		rec["res"] = res
 		out.Emit(rec)
